@@ -20,6 +20,14 @@ CHECKS = {
             "Fault-free runs of the real pipeline on nasty-constant bait under CPU/address-space budgets (no exception escapes, output exists), and faulted twin runs in which analysis of a chosen block is made impossible (persistent or n-th-call failure of specification generation; EIO/ENOSPC/EACCES/ENOENT placed on the intermediate-file operations of that block); the faulted output must differ from the fault-free twin only at the faulted block, and the run must finish within a bounded number of simulator events.",
             "Fault kinds are enumerated per base run, fault positions and base runs are sampled; I/O faults on the solver's input file and solver-process failures are explored and counted but are not verdicts (the statement quantifies over analysis failures).",
             TECH + ": placed analysis-time faults (buggify + SimFS errno injection) against a fault-free twin run, CPU/AS budgets"),
+    "C12": ("exploration", "§5 C12",
+            "Histories as schedule: the real per-block pipeline processes a seeded history of other blocks and then B in one forked process, and B alone in another fork of the pristine worker; specification dictionaries (identifiers included), optimised code, log entry, statistics rows and the keep-or-revert decision must be identical. Failing histories are minimised by dropping members.",
+            "Histories of 1..12 blocks with a fixed option set per process; time columns excluded; sampled.",
+            TECH + ": seeded call histories in one process versus a fresh fork, field-by-field comparison"),
+    "C13": ("exploration", "§5 C13",
+            "The same ops are executed in separate interpreters started with different PYTHONHASHSEED values, temp-dir names and simulated clock rates; specification JSON files, logs (greedy id lists), emitted files, CSVs (time columns excluded) and printed totals must have equal digests pairwise.",
+            "Greedy back-ends only (the statement is about specification generation and greedy search); 4-5 process schedules per op.",
+            TECH + ": process-schedule variation (hash seed, temp dir, clock) with pairwise artefact digests"),
 }
 NA = {
     "C03": "pure function of a term on 256-bit words: no schedule, clock, peer, file, crash or history between term and rewritten term (rule bait still runs through C01/C02 as a side effect)",
